@@ -202,6 +202,18 @@ CHECKS["C15"] = {
     "parts": [A("vtx", "./checks/c15", "TestC15", budget={"quick": 90, "thorough": 1500})],
 }
 
+CHECKS["C16"] = {
+    "level": "model_checking",
+    "rule": "Engine A: stream-transport server, TCP allocations of c1 (user u1) and c2 (user u2), peers A (permitted) and B; every event sequence (depth 4 quick / 5 thorough) over {Connect (c1,B),(c1,A),(c2,B), "
+            "inbound peer connection from A / from B to c1's relayed address, CreatePermission [B], ConnectionBind on a fresh data connection for every known connection id by {its owner, the other client/user, the owner's "
+            "address with the other user's credentials} and for an unknown id, client->peer and peer->client byte streams whole / byte-at-a-time / 7-byte segments, close from the client side / the peer side, Refresh 0, clock to "
+            "the next deadline (30 s bind timeout, permission, lifetime) -/+1ns}; oracle: connection ids pairwise distinct and backed by a real simnet connection from / at the relayed address, inbound ones only from permitted IPs "
+            "(others closed without indication, nothing reaches another client), bind succeeds exactly once, only for the allocation's user, only before 30 s, after which the peer connection is closed; bound streams are equal as "
+            "byte sequences in both directions, nothing echoed, close propagates; duplicate Connect -> 446 and a further request is still served; after every event relay-side connections == model, AllocationCount, relay "
+            "listeners; (thorough) also with the deny-B operator policy: refused target never dialled.",
+    "parts": [A("vtx", "./checks/c16", "TestC16", budget={"quick": 120, "thorough": 1800})],
+}
+
 ENGINES = [
     {"name": "sched", "path": "/verif/sched + /verif/shim + /verif/instr", "serves_properties": ["C18"],
      "kind_free_text": "Engine B: controlled scheduler over sources instrumented at check time (go build -overlay): stateless DFS over all schedules with at most k preemptions, prefix replay, work stealing between shard processes"},
